@@ -149,6 +149,71 @@ theorem tcRows_app_error (Γ : Env) (e : Expr) (post : ExprList) (d : Diag) (he 
         | error d' => simp [ht] at hp
         | ok cs' => simp [ih cs' ht]
 
+/-! ## bounds of a range / slice -/
+
+/-- `f1 .. t1, f2 .. t2, …` in front of `rest` -/
+def flatPairs : List (Expr × Expr) → ExprList → ExprList
+  | [], r => r
+  | (f, t) :: ps, r => .cons f (.cons t (flatPairs ps r))
+
+theorem tcBounds_from_error (Γ : Env) (x t : Expr) (post : ExprList) (d : Diag) (he : tc Γ x = .error d) :
+    tcBounds Γ (.cons x (.cons t post)) = .error d := by
+  simp [tcBounds, he]
+
+theorem tcBounds_to_error (Γ : Env) (f x : Expr) (post : ExprList) (cf : Comb) (d : Diag)
+    (hf : tc Γ f = .ok cf) (he : tc Γ x = .error d) :
+    tcBounds Γ (.cons f (.cons x post)) = .error d := by
+  simp [tcBounds, hf, he]
+
+theorem tcBounds_to_prefix (Γ : Env) (f x : Expr) (post : ExprList) (d : Diag)
+    (hf : tc Γ f = .error d) : tcBounds Γ (.cons f (.cons x post)) = .error d := by
+  simp [tcBounds, hf]
+
+theorem tcBounds_flat_prefix (Γ : Env) (rest : ExprList) : (ps : List (Expr × Expr)) → (d : Diag) →
+    tcBounds Γ (flatPairs ps .nil) = .error d → tcBounds Γ (flatPairs ps rest) = .error d
+  | [], d, h => by simp [flatPairs, tcBounds] at h
+  | (f, t) :: ps, d, h => by
+    have ih := tcBounds_flat_prefix Γ rest ps
+    simp only [flatPairs, tcBounds] at h ⊢
+    cases hf : tc Γ f with
+    | error d' => simp [hf] at h ⊢; exact h
+    | ok cf =>
+      cases ht : tc Γ t with
+      | error d' => simp [hf, ht] at h ⊢; exact h
+      | ok ct =>
+        simp only [hf, ht, bind_ok] at h ⊢
+        by_cases h1 : boundOk cf.ct = true
+        · by_cases h2 : boundOk ct.ct = true
+          · simp only [h1, h2, ↓reduceIte] at h ⊢
+            cases hr : tcBounds Γ (flatPairs ps .nil) with
+            | error d' => simp [hr] at h; subst h; simp [ih d' hr]
+            | ok n => simp [hr] at h
+          · simp only [h1, h2, ↓reduceIte] at h ⊢; exact h
+        · simp only [h1, ↓reduceIte] at h ⊢; exact h
+
+theorem tcBounds_flat_error (Γ : Env) (rest : ExprList) (d : Diag) (hr : tcBounds Γ rest = .error d) :
+    (ps : List (Expr × Expr)) → (n : Nat) → tcBounds Γ (flatPairs ps .nil) = .ok n →
+    tcBounds Γ (flatPairs ps rest) = .error d
+  | [], _, _ => by simpa [flatPairs] using hr
+  | (f, t) :: ps, n, h => by
+    have ih := tcBounds_flat_error Γ rest d hr ps
+    simp only [flatPairs, tcBounds] at h ⊢
+    cases hf : tc Γ f with
+    | error d' => simp [hf] at h
+    | ok cf =>
+      cases ht : tc Γ t with
+      | error d' => simp [hf, ht] at h
+      | ok ct =>
+        simp only [hf, ht, bind_ok] at h ⊢
+        by_cases h1 : boundOk cf.ct = true
+        · by_cases h2 : boundOk ct.ct = true
+          · simp only [h1, h2, ↓reduceIte] at h ⊢
+            cases hr' : tcBounds Γ (flatPairs ps .nil) with
+            | error d' => simp [hr'] at h
+            | ok m => simp [ih m hr']
+          · simp [h1, h2] at h
+        · simp [h1] at h
+
 /-! ## sequences -/
 
 /-- table after the items `pre` of a block (what `tcSeq` does to them) -/
@@ -639,6 +704,18 @@ inductive Frame
   | seqFunc (ln : Ln) (pre : SeqList) (fpre : FuncList) (h : FuncHole) (fpost : FuncList)
       (post : SeqList)
   | funcLit (h : FuncHole)
+  -- D11 round 2: holes inside the new constructs
+  | tupleE (ln : Ln) (pre post : ExprList) (ms : TyList)
+  | projE (ln iln : Ln) (i : Nat)
+  | rangeF (ln : Ln) (ps : List (Expr × Expr)) (t : Expr) (post : ExprList)
+  | rangeT (ln : Ln) (ps : List (Expr × Expr)) (f : Expr) (post : ExprList)
+  | sliceA (ln : Ln) (bounds : ExprList)
+  | sliceF (ln : Ln) (a : Expr) (ps : List (Expr × Expr)) (t : Expr) (post : ExprList)
+  | sliceT (ln : Ln) (a : Expr) (ps : List (Expr × Expr)) (f : Expr) (post : ExprList)
+  | pipeL (ln : Ln) (f : Expr) (args : ExprList)
+  | pipeF (ln : Ln) (l : Expr) (args : ExprList)
+  | pipeA (ln : Ln) (l f : Expr) (pre post : ExprList)
+  | subE (pre post : ExprList)
 
 def Frame.plug : Frame → Expr → Expr
   | .enumVal ln item, x => .enumVal ln x item
@@ -670,6 +747,17 @@ def Frame.plug : Frame → Expr → Expr
   | .seqFunc ln pre fpre h fpost post, x =>
     .seq ln (pre.app (.cons (.funcs (fpre.app (.cons (h.plug x) fpost))) post))
   | .funcLit h, x => .funcLit (h.plug x)
+  | .tupleE ln pre post ms, x => .tuple ln (pre.app (.cons x post)) ms
+  | .projE ln iln i, x => .proj ln x iln i
+  | .rangeF ln ps t post, x => .range ln (flatPairs ps (.cons x (.cons t post)))
+  | .rangeT ln ps f post, x => .range ln (flatPairs ps (.cons f (.cons x post)))
+  | .sliceA ln bounds, x => .slice ln x bounds
+  | .sliceF ln a ps t post, x => .slice ln a (flatPairs ps (.cons x (.cons t post)))
+  | .sliceT ln a ps f post, x => .slice ln a (flatPairs ps (.cons f (.cons x post)))
+  | .pipeL ln f args, x => .pipe ln x f args
+  | .pipeF ln l args, x => .pipe ln l x args
+  | .pipeA ln l f pre post, x => .pipe ln l f (pre.app (.cons x post))
+  | .subE pre post, x => .sub (pre.app (.cons x post))
 
 /-- the symbol table in force at the hole, computed by replaying what `tc` does before it gets
 there; an error means `tc` stops before the hole with that very diagnostic -/
@@ -725,5 +813,17 @@ def Frame.env (Γ : Env) : Frame → Except Diag Env
     let s ← declFunc Γ h.name h.params h.rc h.rty
     h.pre (funcEnv Γ h.name s) s
     pure (funcEnv Γ h.name s)
+  | .tupleE _ pre _ _ => do let _ ← tcArgs Γ pre; pure Γ
+  | .projE _ _ _ => .ok Γ
+  | .rangeF _ ps _ _ => do let _ ← tcBounds Γ (flatPairs ps .nil); pure Γ
+  | .rangeT _ ps f _ => do let _ ← tcBounds Γ (flatPairs ps .nil); let _ ← tc Γ f; pure Γ
+  | .sliceA _ _ => .ok Γ
+  | .sliceF _ a ps _ _ => do let _ ← tc Γ a; let _ ← tcBounds Γ (flatPairs ps .nil); pure Γ
+  | .sliceT _ a ps f _ => do
+    let _ ← tc Γ a; let _ ← tcBounds Γ (flatPairs ps .nil); let _ ← tc Γ f; pure Γ
+  | .pipeL _ _ _ => .ok Γ
+  | .pipeF _ l _ => do let _ ← tc Γ l; pure Γ
+  | .pipeA _ l f pre _ => do let _ ← tc Γ l; let _ ← tc Γ f; let _ ← tcArgs Γ pre; pure Γ
+  | .subE pre _ => do let _ ← tcRows Γ pre; pure Γ
 
 end Never.Tc
